@@ -1367,7 +1367,17 @@ class PathExec(object):
                 p = Pure(eng, st, env, frame.glob, False, guard, lineno, fv.env)
                 yield st, p.ev(fv.node.body)
                 return
-            yield from self.inline_funcdef(fv.node, fv.env, frame.glob, args, kwargs, st, guard, lineno)
+            stack = self.eng.__dict__.setdefault('inline_stack', [])
+            if id(fv.node) in stack or len(stack) > 6:
+                yield from self.unknown_call(fv, st, frame, guard, node, 'recursive nested function')
+                return
+            stack.append(id(fv.node))
+            try:
+                outs = list(self.inline_funcdef(fv.node, fv.env, frame.glob, args, kwargs, st, guard, lineno))
+            finally:
+                stack.pop()
+            for o in outs:
+                yield o
             return
         if isinstance(fv, ConstV):
             f = fv.obj
@@ -1518,11 +1528,30 @@ class PathExec(object):
             yield st, NEXT, None
             return
         head, rest = stmts[0], stmts[1:]
+        merger = getattr(self.eng, 'merge_key', None)
+        if merger is None:
+            for st1, sig, val in self.stmt(head, st, frame):
+                if sig == NEXT:
+                    yield from self.block(rest, st1, frame)
+                else:
+                    yield st1, sig, val
+            return
+        # state merging (used by the tolerant analyses): states that agree on everything the
+        # analysis tracks continue as one state with the common path-condition prefix
+        groups = {}
+        order = []
         for st1, sig, val in self.stmt(head, st, frame):
-            if sig == NEXT:
-                yield from self.block(rest, st1, frame)
-            else:
+            if sig != NEXT:
                 yield st1, sig, val
+                continue
+            k = merger(st1)
+            if k in groups:
+                groups[k] = merge_states(groups[k], st1)
+            else:
+                groups[k] = st1
+                order.append(k)
+        for k in order:
+            yield from self.block(rest, groups[k], frame)
 
     def stmt(self, s, st, frame):
         m = getattr(self, 'st_' + type(s).__name__, None)
@@ -1859,7 +1888,22 @@ class PathExec(object):
                 else:
                     yield st2, sig2, val2     # finally overrides
 
-        for st1, sig, val in self.block(s.body, st, frame):
+        body_outs = self.block(s.body, st, frame)
+        merger = getattr(self.eng, 'merge_key', None)
+        if merger is not None:
+            # tolerant analyses: outcomes of the try body that agree on the tracked values and
+            # on the kind of exit are joined before handlers / finally run
+            groups, order = {}, []
+            for st1, sig, val in body_outs:
+                k = (sig, val.name() if isinstance(val, ExcV) else None, merger(st1))
+                if k in groups:
+                    groups[k] = (merge_states(groups[k][0], st1), sig,
+                                 val if sig == RAISE else UnkV('merged return value'))
+                else:
+                    groups[k] = (st1, sig, val)
+                    order.append(k)
+            body_outs = [groups[k] for k in order]
+        for st1, sig, val in body_outs:
             if sig == RAISE and s.handlers:
                 handled_all = False
                 for st2, sig2, val2 in self.dispatch_handlers(s, st1, val, frame):
@@ -2032,6 +2076,33 @@ class PathExec(object):
                     yield st3, NEXT, None
                 else:
                     yield st3, sig, val
+
+
+def merge_states(a, b):
+    """join of two states that agree on the tracked values: common path-condition prefix,
+    untracked variables that differ become unknown"""
+    n = 0
+    for x, y in zip(a.pc, b.pc):
+        if x.get_id() != y.get_id():
+            break
+        n += 1
+    a.pc = a.pc[:n]
+    for k in list(a.env.keys()):
+        va, vb = a.env[k], b.env.get(k)
+        if va is vb:
+            continue
+        ta, tb = int_term(va) if va is not None else None, int_term(vb) if vb is not None else None
+        if ta is not None and tb is not None and ta.get_id() == tb.get_id():
+            continue
+        if isinstance(va, FuncV) and isinstance(vb, FuncV) and va.node is vb.node:
+            continue
+        a.env[k] = UnkV('merged %s' % k)
+    for k in b.env:
+        if k not in a.env:
+            a.env[k] = UnkV('merged %s' % k)
+    a.trace = a.trace[:max(0, len(a.trace) - 1)] + ['merge']
+    a.calls = {}
+    return a
 
 
 class ExcInstance(object):
